@@ -142,6 +142,7 @@ struct StreamPool {
     alignas(S) unsigned char mem[MAXP][sizeof(S)];
     bool live[MAXP];
     int pool;
+    std::string extra;
     explicit StreamPool(int p) : pool(p) { for (int i = 0; i < MAXP; ++i) live[i] = false; memset(mem, 0, sizeof(mem)); }
     S &at(int i) { return *reinterpret_cast<S *>(mem[i]); }
     void kill(int i) { at(i).~S(); live[i] = false; memset(mem[i], 0, sizeof(S)); }
@@ -200,6 +201,11 @@ struct StreamPool {
             else if (ty == "ull") at(o) << (unsigned long long)(u64(f[3]));
             else { fprintf(stderr, "h_mem: shl type %s\n", ty.c_str()); exit(2); }
         }
+        else if (op == "tostr") {
+            ST::utf_validation_t m = f[3] == "av" ? ST::assume_valid : f[3] == "si" ? ST::substitute_invalid : ST::check_validity;
+            ST::string r = (f[3] == "default") ? at(o).to_string(f[2] == "u") : at(o).to_string(f[2] == "u", m);
+            extra = ",ts=" + hex(r);
+        }
         else if (op == "shl16") { Block<char16_t> d = units<char16_t>(f[2], 1); at(o) << d.data(); }
         else if (op == "shl16s") { Block<char16_t> d = units<char16_t>(f[2]); at(o) << std::u16string(d.data(), d.size()); }
         else if (op == "shl16v") { Block<char16_t> d = units<char16_t>(f[2]); at(o) << std::u16string_view(d.data(), d.size()); }
@@ -224,6 +230,7 @@ struct StreamPool {
         for (size_t s = 0; s < ops.size(); ++s) {
             std::vector<std::string> f = split_on(ops[s], ',');
             std::string r = "ok";
+            extra.clear();
             g_window = true;
             g_window_allocs = 0;
             g_fail_in = (long(s) == fail_step) ? fail_k : -1;
@@ -236,7 +243,7 @@ struct StreamPool {
             }
             g_window = false;
             g_fail_in = -1;
-            out << (s ? "|" : "") << "r=" << r << observe();
+            out << (s ? "|" : "") << "r=" << r << extra << observe();
         }
         for (int i = 0; i < pool; ++i)
             if (live[i]) kill(i);
